@@ -167,10 +167,32 @@ def _check_pairs(ctx, rule, fname, val, want_fn, want_cov):
         if bad:
             ctx.violation(rule, construct, 'definition:' + valname(val), '; '.join(bad), f.loc())
             return None
+        carried = loop_carried(ip)
+        if carried:
+            ctx.violation(rule, construct, 'loop-carried:' + valname(val), carried[0], f.loc())
+            return None
     ctx.holds(rule, construct, '%s: per-pair value equals its definition; pairs %s; symmetric in the labels'
               % (valname(val), recs[0]['coverage']), f.loc(), key=valname(val),
               sample={'function': fname, 'flags': valname(val), 'extracted': N.show(got)[:300]})
     return got
+
+
+def loop_carried(ip):
+    """The pair loop is analysed once with symbolic labels, which is sound only when no iteration reads what an
+    earlier one wrote.  An in-place write, made inside a pair loop, to a *diagonal* entry (a,a) of an array that
+    existed before the call is read again by every later pair that contains type a: for rank >= 3 those pairs are
+    then computed from modified data and no longer equal their definition.  (Entry (a,b) of the iteration's own
+    pair is visited once and is harmless here; C06 reports the corruption of the object itself.)"""
+    out = []
+    for w in ip.entry_writes:
+        la, lb = w['pair']
+        if w['arr'].fresh or not w.get('loop_labels'):
+            continue
+        if la == lb and la in w['loop_labels']:
+            out.append('the iteration for pair (a,b) overwrites entry (%s,%s) of %s at %s, which the iterations of every '
+                       'other pair containing that type read afterwards: for three or more types later pairs are not '
+                       'computed from the object\'s data' % (la, lb, w['arr'].origin, w['loc']))
+    return out
 
 
 def rule_second_virial(ctx, rule='R05.b2'):
